@@ -319,6 +319,107 @@ def work_trim_ws(job):
     return acc.result()
 
 
+EXT_XS = [123456789012345.6, 1000000000000000.5, 1e21, 1e22, 1e23, 1e27, 5e27, 1e28, 1e300, 1.7976931348623157e308, 5e-324, 1e-300,
+          0.1, 0.1 + 0.2, 2.675, 0.285, 1.005, 1234567.891]
+EXT_FORMATS = ['0', '0.00', '#,##0', '#,##0.00', '0%', '0.00%', '0.' + '0' * 15, '0.' + '0' * 18, '0.' + '0' * 25, '0.' + '0' * 40, '000']
+
+
+def fmt_exact(x, f):
+    """exact rendering for formats of 0 , . % (no #) at any magnitude / number of decimals"""
+    import decimal
+    with decimal.localcontext(decimal.Context(prec=2000)):
+        q = Decimal(repr(float(x)))
+        pct = f.endswith('%')
+        body = f[:-1] if pct else f
+        if pct:
+            q = q * 100
+        intpart, _, frac = body.partition('.')
+        decimals = len(frac)
+        r = q.quantize(Decimal(1).scaleb(-decimals), rounding=ROUND_HALF_UP)
+        if r == 0 and q < 0:
+            return None
+        sign = '-' if r < 0 else ''
+        ip, _, fp = f'{abs(r):.{decimals}f}'.partition('.')
+        ip = ip.zfill(intpart.replace(',', '').replace('#', '').count('0'))
+        if ',' in intpart and len(ip) > 3:
+            ip = f'{int(ip):,}'
+        return sign + ip + ('.' + fp if decimals else '') + ('%' if pct else '')
+
+
+def work_offgrid(job):
+    """positions and counts off the integer grid 1..: FIND from a start below 1 is #VALUE! and never counts from the
+    end; a fractional position or count acts as an adjacent whole one (never as 'everything'); SUBSTITUTE of the empty
+    text changes nothing; TEXT stays decimal-exact at magnitudes and decimals beyond 28 significant digits."""
+    acc = Acc()
+    ev = feval.Evaluator()
+
+    def run(f, env):
+        acc.add('evaluations')
+        acc.add('states')
+        acc.add('distinct_nontrivial')
+        return ev.run(f, env)
+
+    def among(fn, f, env, frac_cell, lo, hi, **info):
+        """the formula with the fractional value equals the formula at one of the adjacent integers lo / hi"""
+        o = run(f, env)
+        alts = []
+        for v in (lo, hi):
+            alts.append(ev.run(f, dict(env, **{frac_cell: v}))[:2])
+        case = dict(kind='offgrid', fn=fn, formula=f, env=jsonable(env), **info)
+        if o[0] != 'ok':
+            acc.violation(dict(case, verdict='raised', exc=o[1]), f'{f} with {env} raised {o[1]}: {o[2][-80:]}')
+        elif o[:2] not in alts:
+            acc.violation(dict(case, verdict='fraction-not-adjacent', observed=jsonable(o[1]), expected=jsonable([a[1] for a in alts])),
+                          f'{f} with {env} = {o[1]!r}; with {frac_cell} = {lo} / {hi} it is {alts[0][1]!r} / {alts[1][1]!r}')
+
+    part = job[0]
+    for s in (strings(3) if part in (0, None) else ()):
+        if not s:
+            continue
+        L = len(s)
+        for n in range(0, L + 1):
+            x = n + 0.5
+            among('LEFT', '=LEFT(A1,B1)', {'A1': s, 'B1': x}, 'B1', n, n + 1)
+            among('RIGHT', '=RIGHT(A1,B1)', {'A1': s, 'B1': x}, 'B1', n, n + 1)
+            among('MID', '=MID(A1,1,B1)', {'A1': s, 'B1': x}, 'B1', n, n + 1)
+            among('MID', '=MID(A1,B1,1)', {'A1': s, 'B1': x + 1}, 'B1', n + 1, n + 2)
+            among('REPLACE', '=REPLACE(A1,1,B1,"X")', {'A1': s, 'B1': x}, 'B1', n, n + 1)
+            among('REPLACE', '=REPLACE(A1,B1,1,"X")', {'A1': s, 'B1': x + 1}, 'B1', n + 1, n + 2)
+        for f in sorted(set(s)) + [s[:2]]:
+            for st in (-2, -1, 0):
+                o = run('=FIND(B1,A1,C1)', {'A1': s, 'B1': f, 'C1': st})
+                if o[:2] != ('ok', '#VALUE!'):
+                    acc.violation(dict(kind='search', fn='FIND', verdict='wrong-value', s=s, f=f, start=st, observed=jsonable(o[:2]),
+                                       expected='#VALUE!'),
+                                  f'=FIND({f!r},{s!r},{st}) = {o[:2]!r}; a start position below 1 is #VALUE!')
+            for st in range(1, L + 1):
+                among('FIND', '=FIND(B1,A1,C1)', {'A1': s, 'B1': f, 'C1': st + 0.5}, 'C1', st, st + 1)
+        for new in ('X', ''):
+            for inst in (None, 1, 2):
+                f = '=SUBSTITUTE(A1,"",D1)' if inst is None else '=SUBSTITUTE(A1,"",D1,E1)'
+                o = run(f, {'A1': s, 'D1': new, 'E1': inst})
+                if o[0] != 'ok' or not W.veq(o[1], s):
+                    acc.violation(dict(kind='offgrid', fn='SUBSTITUTE', formula=f, env=jsonable({'A1': s, 'D1': new, 'E1': inst}),
+                                       verdict='empty-search-text', observed=jsonable(o[:2]), expected=s),
+                                  f'{f} with A1={s!r}, D1={new!r}, E1={inst!r} = {o[:2]!r}; there is no occurrence of the empty text, expected {s!r}')
+    for x in (EXT_XS if part in (1, None) else ()):
+        for sgn in (1, -1):
+            for f in EXT_FORMATS:
+                xv = sgn * x
+                exp = fmt_exact(xv, f)
+                if exp is None:
+                    continue
+                o = run('=TEXT(A1,B1)', {'A1': xv, 'B1': f})
+                case = dict(kind='text', fn='TEXT', x=xv, fmt=f, extreme=True)
+                if o[0] != 'ok':
+                    acc.violation(dict(case, verdict='raised', exc=o[1]), f'=TEXT({xv!r},{f!r}) raised {o[1]}: {o[2][-80:]}')
+                elif o[1] != exp:
+                    acc.violation(dict(case, verdict='wrong-rendering', observed=jsonable(o[1])[:80], expected=exp[:80]),
+                                  f'=TEXT({xv!r},{f!r}) = {str(o[1])[:60]!r}.., exact decimal formatting gives {exp[:60]!r}..')
+    acc.counts['transitions'] = acc.counts.get('evaluations', 0)
+    return acc.result()
+
+
 def run(ctx):
     m = 64
     ml = 5 if ctx.thorough else 4
@@ -326,6 +427,7 @@ def run(ctx):
     ctx.pmap(work_slicing, [((k + ctx.seed) % m, m, ml) for k in range(m)], timeout=6000)
     ctx.pmap(work_search, [(k, m, ml) for k in range(m)], timeout=6000)
     ctx.pmap(work_numbers, [(0,)], timeout=600)
+    ctx.pmap(work_offgrid, [(0,), (1,)], timeout=1200)
     ctx.pmap(work_text, [(k, 64, ctx.thorough) for k in range(64)], timeout=6000)
     ctx.counts['traces_validated_against_impl'] = ctx.counts.get('evaluations', 0)
     ctx.extra['alphabet'] = ALPHA
@@ -338,6 +440,14 @@ def replay(case):
         o = ev.run(case['formula'], case['env'])
         exp = case.get('expected')
         return (o[0] != 'ok' or not W.veq(o[1], exp)), f"{case['formula']} with {case['env']} -> {o[:2]!r}; expected {exp!r}"
+    if case['kind'] == 'offgrid':
+        r = work_offgrid((None,))
+        hits = [m for c, m in r['violations'] if c.get('formula') == case['formula'] and c.get('env') == case['env']]
+        return bool(hits), '\n'.join(hits[:2]) or 'no violation'
+    if case['kind'] == 'text' and case.get('extreme'):
+        o = ev.run('=TEXT(A1,B1)', {'A1': case['x'], 'B1': case['fmt']})
+        exp = fmt_exact(case['x'], case['fmt'])
+        return (o[0] != 'ok' or o[1] != exp), f"=TEXT({case['x']!r},{case['fmt']!r}) -> {str(o[1])[:80]!r}; expected {str(exp)[:80]!r}"
     if case['kind'] == 'text':
         o = ev.run('=TEXT(A1,B1)', {'A1': case['x'], 'B1': case['fmt']})
         strict, val = fmt_expected(case['x'], case['fmt'])
